@@ -89,7 +89,7 @@ def run(m, chk):
         "floating-point convergence tests are reported), the Newton iterate is compared with both ends of the interval after its last update before it is returned (CLAMP), the result "
         "passes the minimum-distance filter and a sort, the curve and the point are not modified, the result depends on both. Global minimality, stationarity and non-emptiness are not decided."
     )
-    chk.decides = ["STEP-APPLIED (the Newton iterate is returned only after the step computed for it has been applied)", "NAN-GUARD (the Newton iterate is returned only after a test a NaN fails)", "START-IN-RANGE (the Newton starts are end-exact samples of the interval)", "TERM", "CLAMP both sides", "must-pass-through(min-distance filter, sort)", "PURE", "DEP-MAY", "ENDS-CANDIDATE (both ends of every piece are among the candidates)"]
+    chk.decides = ["SCALE-REACHES (every matrix the Bezier derivative helper returns went through the division by the interval length)", "STEP-APPLIED (the Newton iterate is returned only after the step computed for it has been applied)", "NAN-GUARD (the Newton iterate is returned only after a test a NaN fails)", "START-IN-RANGE (the Newton starts are end-exact samples of the interval)", "TERM", "CLAMP both sides", "must-pass-through(min-distance filter, sort)", "PURE", "DEP-MAY", "ENDS-CANDIDATE (both ends of every piece are among the candidates)"]
     chk.not_decided = ["the returned distance is the global minimum", "stationarity of interior parameters", "non-emptiness"]
     q = P + "point_on_curve"
     term(r, chk, q)
@@ -165,6 +165,9 @@ def run(m, chk):
     nq19 = next((q_ for q_ in r.A.roots if q_.endswith("newton_point_on_curve")), None)
     if nq19 is not None:
         step_applied(r, chk, nq19)
+    from .extra import scale_reaches
+
+    scale_reaches(r, chk, ["heavy.Calculus.derivate_nonrational_bezier"], floor=2)
     from .extra import starts_in_range
 
     starts_in_range(r, chk, "advanced.Projection.point_on_bezier", "newton_point_on_curve")
